@@ -243,6 +243,21 @@ impl Channel {
         }
     }
 
+    /// Drops all messages that are still waiting in the channel's queue.
+    ///
+    /// A queued message is stored together with the connection it will continue on,
+    /// and that connection refers to this very channel. The queue must therefore be
+    /// emptied explicitly when the gate chain is dissolved, otherwise the channel keeps
+    /// itself (and the queued messages) alive forever.
+    pub(crate) fn dissolve(&self) {
+        let Ok(mut chan) = self.inner.write() else {
+            return;
+        };
+        let buffer = std::mem::take(&mut chan.buffer);
+        drop(chan);
+        drop(buffer);
+    }
+
     /// Resets the busy state of a channel.
     pub(crate) fn unbusy<S: EventSink<NetEvents>>(self: Arc<Self>, sink: &mut S) {
         let mut chan = self.inner.write().unwrap();
